@@ -884,6 +884,24 @@ public:
             XPathExecutionContext&  executionContext) const;
 
     /**
+     * Get the match score of a single alternative of a match pattern
+     * ("a | b | c") for the specified node.  The alternatives are numbered
+     * from 0, in the order in which getTargetData() reports them.
+     *
+     * @param node The node for the score
+     * @param resolver The prefix resolver
+     * @param executionContext current execution context
+     * @param theAlternative The index of the alternative
+     * @return the score of that alternative, eMatchScoreNone if it does not match
+     */
+    eMatchScore
+    getMatchScore(
+            XalanNode*              node,
+            const PrefixResolver&   resolver,
+            XPathExecutionContext&  executionContext,
+            XalanSize_t             theAlternative) const;
+
+    /**
      * Evaluate a predicate.
      *
      * @param context          current source tree context node
